@@ -29,6 +29,7 @@ ATTACH = {
     "bootstrap_manager": "src/bootstrap/manager.rs",
     "dht_network_manager": "src/dht_network_manager.rs",
     "transport_handle": "src/transport_handle.rs",
+    "validation": "src/validation.rs",
 }
 
 
